@@ -128,7 +128,9 @@ SetState(s, st) ==
   LET s1 == DeleteEvents(s, st.nn + 1, Len(s.nodes))
       s2 == [s1 EXCEPT !.pos = st.pos, !.cur = st.cur, !.diags = SubSeq(@, 1, st.nd),
                        !.nodes = SubSeq(@, 1, st.nn), !.tc = st.tc, !.nsl = st.nsl]
-  IN IF "RestoreKeepsErrorState" \in AsBuilt THEN s2
+  IN IF "RestoreKeepsErrorState" \in AsBuilt
+     THEN \* ghost: remember that the deviation changed something in this behaviour
+          (IF s2.en # st.en \/ s2.esa # st.esa THEN [s2 EXCEPT !.dev = @ \cup {"RestoreKeepsErrorState"}] ELSE s2)
      ELSE [s2 EXCEPT !.en = st.en, !.esa = st.esa]
 
 (***************************************************************************)
@@ -372,7 +374,11 @@ StepCreate(s, n) ==
      ELSE LET mark == IF num = "" THEN L.start ELSE L.marks[num]
               s1 == OpenBefore(s, mark)
               s2 == Close(s1, mark, nm)
-          IN Pop(Emit(s2, Ev("create", nm, mark, FALSE)))
+              \* ghost: known protocol violations of the emitted code (DESIGN 10.3 F03, F12)
+              below == \E k \in DOMAIN s.stk : s.stk[k].f = "oc" /\ s.stk[k].b = "trying" /\ s.stk[k].a.state.nn > mark
+              stale == \E x \in DOMAIN L.marks : L.marks[x] > mark
+              d == (IF below THEN {"CreateBelowSnapshot"} ELSE {}) \cup (IF stale THEN {"StaleInnerMark"} ELSE {})
+          IN Pop(Emit([s2 EXCEPT !.dev = @ \cup d], Ev("create", nm, mark, FALSE)))
 
 StepAssert(s, n) ==
   LET v == NextBool(s)
@@ -546,7 +552,8 @@ Init0(w, en, script) ==
   LET eoi == IF en = 0 THEN "EOF" ELSE G.parts[en].mark
       s0 == [w |-> w, pos |-> 0, cur |-> "EOF", eoi |-> eoi, en |-> 0, ioc |-> FALSE, esa |-> FALSE,
              diags |-> <<>>, nodes |-> <<>>, tc |-> 0, nsl |-> 0, stk |-> <<>>,
-             script |-> script, used |-> <<>>, ev |-> <<>>, status |-> "run", entry |-> en, steps |-> 0]
+             script |-> script, used |-> <<>>, ev |-> <<>>, status |-> "run", entry |-> en, steps |-> 0,
+             dev |-> {}]
       s1 == InitSkip(DataOpen(s0))
       ri == RuleIdx(IF en = 0 THEN G.start ELSE G.parts[en].name)
   IN Push(s1, Frame("rule", ri, 0, RuleLocals(ri), FALSE))
